@@ -278,12 +278,27 @@ def _run(case, cfg, w):
             return False
         if frame == '':
             return False
+        try:
+            import json as _json
+            if not isinstance(_json.loads(frame), str):
+                # engine.io hands JSON-decodable message bodies to socketio
+                # as numbers / lists / dicts, and socketio reads an integer
+                # as a bare packet type: a liberal reading, no claim
+                return True
+        except ValueError:
+            pass
         c = frame[0]
         if not c.isdigit() or int(c) > 6:
             return False
         if any(ch.isdigit() and not ch.isascii() for ch in frame):
             return True     # unicode digits: scanners may differ, no claim
         if c in '01234':
+            j = 1
+            while j < len(frame) and frame[j].isdigit():
+                j += 1
+            if j > 1 and frame[j:j + 1] == '-':
+                return True   # "<type><digits>-...": the server's scanner
+                #               reads an attachment count here; no claim
             try:
                 sio.decode_header(frame)
             except Exception:
